@@ -4,9 +4,9 @@ import runner_corr
 META = {
     "lean_modules": ["QVerif.Props.C08"],
     "drivers": ["Runner"],
-    "theorems": ['Runner.C08_step_decreases_or_retries', 'Runner.C08_bounded_work', 'Runner.C08_can_always_complete', 'Runner.C08_no_deadlock', 'Runner.progress', 'Runner.step_complete', 'Runner.dinv_reachable'],
+    "theorems": ['Runner.C08_every_fair_execution_completes', 'Runner.no_infinite_fair_execution', 'Runner.fair_of_stuck', 'Runner.C08_step_decreases_or_retries', 'Runner.C08_bounded_work', 'Runner.C08_can_always_complete', 'Runner.C08_no_deadlock', 'Runner.progress', 'Runner.step_complete', 'Runner.dinv_reachable'],
     "level": "proof",
-    "level_text": "Proof: can_always_complete — from every reachable state of the runner model (any threads/calls/interleaving/failing batches, timed waits firing early or late) some finite continuation reaches quiescence, via `progress` (an enabled step decreasing a lexicographic measure exists in every non-quiescent state satisfying the invariants); hence no deadlock and no doomed state. Under ANY scheduler (no fairness assumed): every step strictly decreases the measure (callsLeft, sum of rank2) or is an iteration step of one of the two timed retry loops (entry retry a0-a9, executor drain g0-g3) that does not increase it (C08_step_decreases_or_retries), so every execution contains at most weight(s) steps that are not retry iterations (C08_bounded_work): a call can fail to return only if a thread iterates a timed retry loop forever, which is never forced (can_always_complete). What remains assumed for 'every call returns': the scheduler does not starve the threads that the retrying ones wait for. Tied to the code by lock-step trace conformance.",
+    "level_text": "Proof: can_always_complete — from every reachable state of the runner model (any threads/calls/interleaving/failing batches, timed waits firing early or late) some finite continuation reaches quiescence, via `progress` (an enabled step decreasing a lexicographic measure exists in every non-quiescent state satisfying the invariants); hence no deadlock and no doomed state. Under ANY scheduler (no fairness assumed): every step strictly decreases the measure (callsLeft, sum of rank2) or is an iteration step of one of the two timed retry loops (entry retry a0-a9, executor drain g0-g3) that does not increase it (C08_step_decreases_or_retries), so every execution contains at most weight(s) steps that are not retry iterations (C08_bounded_work): a call can fail to return only if a thread iterates a timed retry loop forever, which is never forced (can_always_complete). EVERY CALL RETURNS UNDER EVERY STRONGLY FAIR SCHEDULE (C08_every_fair_execution_completes): every maximal execution from a reachable state in which each thread whose next synchronisation operation is enabled infinitely often performs it infinitely often (f returning is such an operation) reaches a quiescent state — there is no infinite strongly fair execution (no_infinite_fair_execution: after finitely many non-retry steps only retry-loop steps remain; threads outside the loops are then never enabled again; in such a 'quiet' state every retry step decreases a second measure Psi, by a case analysis on who holds the variable lock). Strong (not weak) fairness is exactly what is needed: the executor-elect's acquire of the entry lock is enabled only intermittently while a caller spins in the entry retry loop. What remains assumed: that the OS scheduler and CPython's lock hand-over are strongly fair in this sense, and that the wrapped primitive returns. Tied to the code by lock-step trace conformance.",
     "level_note": "Trusted: Lean kernel + propext/Classical.choice/Quot.sound; the hand-written transition system Model/Runner.lean is tied to "
     "mutex_primitives.py by the sampled lock-step conformance only; semantics of threading.Lock/Condition as modelled by the cooperative "
     "primitives; scheduler fairness for liveness; the wrapped primitive returns or raises.",
@@ -17,7 +17,7 @@ META = {
     "the Lean model; returned values and the log of f calls are compared at the end; the oracles (own slice, each pub once, overlap counter, "
     "no hang, exception delivery, reset) run on the implementation alone. non-trivial = >= 2 threads and >= 20 steps; distinct = (programs, faults, schedule)",
     "trusted_base": ['Lean 4 kernel; axioms of each theorem as listed under coverage.theorems (subset of propext, Classical.choice, Quot.sound)', "harness/sched.py: cooperative Lock/Condition/sleep replacing the names in mutex_primitives' namespace (mutual exclusion; wait atomically enqueues and releases; notify wakes only current waiters, FIFO; untimed wait has no spurious wake-up; a timed wait may return at any time); CPython's real primitives are assumed to behave like that", "harness/runner_corr.py + Driver/Runner.lean (translation of scheduling decisions into model actions, comparison of all shared fields and of every thread's pending synchronisation operation after every step)", 'the wrapped primitive returns or raises (it does not block forever)'],
-    "assumptions": ["fair scheduling for liveness", "the wrapped primitive returns or raises"],
+    "assumptions": ["the scheduler is strongly fair (hypothesis StrongFair of C08_every_fair_execution_completes)", "the wrapped primitive returns or raises"],
 }
 
 
